@@ -24,6 +24,9 @@ def _after(a):
     name, earlier, args = a
     for e in earlier:
         try:
+            if isinstance(e, list) and len(e) == 3 and e[0] == "@op":       # another operation: ["@op", name, args]
+                OPS[e[1]](e[2])
+                continue
             OPS[name](e)
         except RecursionError:
             pass
